@@ -89,3 +89,34 @@ PROPS = {
         "level_note": "Trusted: Lean kernel; the hand-written model of http::Uri; harness and diff. reparse is proved for http, https and origin-form URLs (other schemes: correspondence only). The history-level clauses (every request of a check is decorated, metadata = wire bytes, one nonce per request) are carried by the state-machine stream once C02/C06 are claimed.",
     },
 }
+
+# ---------------------------------------------------------------------------------------------
+# state-machine properties: one shared stream `sm`, one projection per property
+
+K_POLL = "x7365727665725f64696374617465645f706f6c6c5f696e74657276616c"
+K_LUT = "x6c6173745f7570646174655f74696d65"
+K_FAILS = "x636f6e73656375746976655f6661696c65645f7570646174655f636865636b73"
+
+SM_RULE = ("histories of 1..4 units against the real StateMachine (start() or oneshot_check) through a scripted environment: "
+           "random embedder presets (1..3 apps, system app inside or outside the set, invalid apps now and then), pre-existing storage of every type and magnitude on every key the library reads, "
+           "CUP on/off with a real StandardCupv2Handler and a harness-side signer (authentic or one of 6 forgeries per response), per-attempt HTTP outcomes from {transport, timeout, caller error, 1xx/3xx/4xx/5xx with or without X-Retry-After, forged, unparseable 2xx, valid 2xx}, "
+           "multi-app responses (any subset offered an update, unknown ids, duplicates, reordered), plan / policy / per-app installer outcomes, storage-failure masks, wall-clock jumps, timer firing orders, control requests at the wait, during the check and during the reboot wait; "
+           "each unit (one loop iteration of run, or one oneshot_check) is one case, started from the state the real machine actually reached; non-trivial = every unit; distinct = (mode, trigger, decision, attempt outcomes, plan/policy outcome, offered count, end kind)")
+
+SM_TRUSTED = ["modelled, not verified: futures::select!/join! semantics as far as the single-threaded scripted executor exercises them, serde_json for PersistedApp, rand/uuid draws (observed, canonicalised to first-occurrence indices)",
+              "the state-machine model Omaha.SM.* is hand-written (one definition per Rust function); its tie to state_machine.rs is the per-unit differential run"]
+
+
+def sm_stream(project):
+    return [{"name": "sm", "file": "sm", "args": ["sm"], "outside_ok": True, "project": project}]
+
+
+PROPS["C07"] = {
+    "lean_modules": ["Omaha.Props.C07"],
+    "streams": sm_stream([r"E proto", [r"P (next|allowed)", ["poll="]], r"S (set|remove) " + K_POLL, r"S commit", [r"Z ", ["poll="]]]),
+    "rule": SM_RULE + "; projection: ProtocolStateChange events, the poll field of every policy call, storage operations on the poll key, commits, end-of-unit poll value",
+    "trusted_extra": SM_TRUSTED + ["modelled, not verified: HeaderValue::to_str and u64::from_str (Dec.parseU64, proved equal to its grammar)"],
+    "assumptions": ["'plain decimal u64' is what u64::from_str accepts (an optional leading '+')"],
+    "level_text": "Machine-checked Lean 4 theorems: retry_after_spec / retry_after_none / retry_after_le_day / retry_after_grammar (the header value -> min(N,86400) s exactly for visible-ASCII decimal u64), poll_after_response (after every authenticated response of any status the context holds it), no_response_no_change, poll_change_announced (change => ProtocolStateChange, three context writes, commit, before anything else) and poll_same_silent, poll_latest_wins (over any sequence of exchanges), poll_restart / poll_restart_absent (loadCtx reads back the persisted encoding); tied to state_machine.rs by the per-unit differential run of the real StateMachine.",
+    "level_note": "Trusted: Lean kernel; the hand-written state-machine model; harness (scripted environment, executor) and diff. Request-kind independence is by construction (one model function serves update checks, event reports and pings) and is exercised by the stream.",
+}
